@@ -705,6 +705,7 @@ def judge(ctx, case, out, reply, alt=None):
         vals = [frac_of(v) for v in A["fs"]] + [frac_of(v) for v in A["starts"]]
         better = [v for v in vals if (v < obj if mini else v > obj)]
         py_ok = obj == fsol and not better and A["evals"] == len(A["fs"])
+        ctx.count("checker_verdicts")
         if bool(chk) != py_ok:      # the verified checker decides; the Python clauses only name the class
             raise Infra(f"C19: verified checker and harness disagree on {case}")
         if not chk or not py_ok:
@@ -796,6 +797,17 @@ PER_SOLVER = {"anneal": 1000, "tabu": 800, "lns": 1200, "alns": 1000, "evolve": 
               "bayes": 300, "powell": 150, "bfgs": 100, "lbfgs": 100}
 
 
+def _cov(ctx):
+    ctx.cov["rule"] = RULE
+    h = ctx.cov["histogram"]
+    ctx.cov["r_trace_agree"] = h.get("r_trace_agree", 0)
+    ctx.cov["cert_checked_impl"] = h.get("checker_verdicts", 0)
+    ctx.cov["excluded_region"] = ("theorem hypotheses popSize/nParticles/nInitial >= 1 and dimension n >= 1: the real "
+                                  "code rejects these inputs itself (IndexError/ValueError on an empty population, "
+                                  "empty bounds, n_initial=0); non-finite objective values are outside the Rat model "
+                                  "and are not generated")
+
+
 def run(ctx, budget):
     ctx.cov["rule"] = RULE
     cases = [c["case"] for c in load_corpus("C19")]
@@ -805,8 +817,9 @@ def run(ctx, budget):
         for i in range(k * mult):
             cases.append(gen_case(ctx.rng, s, big=(ctx.tier == "thorough" and i % 4 == 0)))
     run_cases(ctx, cases)
+    _cov(ctx)
 
 
 def replay(ctx, body):
-    ctx.cov["rule"] = RULE
     run_cases(ctx, [body["case"]])
+    _cov(ctx)
